@@ -600,3 +600,4 @@ TECHNIQUE = ("Lean 4 proof: corollaries of C16 (dag_iterator yields every edge o
              "child.parents=[parent] stores exactly the acyclic relation, first cycle-closing pair raises) + association-list "
              "lemmas for attributes; differential correspondence check through real pandas with shuffled edge orders, attributes, "
              "renaming attr_dicts, duplicate and cyclic relations; model-free oracle (edge multiset, names, attributes, refusal iff cycle)")
+RULE = RULE + ' Fourth session: every order of two (thorough: three) small cyclic relation lists; non-default pandas index for dataframe_to_dag.'
